@@ -83,6 +83,12 @@ pub fn case_dir(scratch: &Path, i: u64) -> PathBuf {
 }
 
 pub fn case_seeds(check: &Check, tier: &str, seed: u64, i: u64) -> Vec<(u64, u64)> {
+    if check.id == "C05" && i == 0 {
+        // Pinned history: case 0 of every C05 run is one known to exhibit the open known finding
+        // (ABA on the previous-root check, known_findings.json), so that the finding is listed
+        // by every run instead of only by the runs that happen to generate it.
+        return vec![(derive(1, &[tag("C05"), 730]), derive(1, &[tag("C05"), 730, 99]))];
+    }
     match check.engine {
         Engine::EModel => vec![(derive(seed, &[tag(check.id), i]), derive(seed, &[tag(check.id), i, 99]))],
         Engine::EModelMatrix => {
@@ -875,6 +881,9 @@ pub fn cmd_check(args: &[String]) -> ExitCode {
             Some(k) => {
                 let key = format!("{}{}", k.sig, k.sig_prefix);
                 known_hits.entry(key).or_insert((k.clone(), 0)).1 += 1;
+                if std::env::var("NV_SHOW_KNOWN").is_ok() {
+                    println!("  known-hit: case_seed={} index={:?} sig={} :: {}", f.case_seed, find_case_index(&check, tier, seed, f.case_seed, ncases), f.sig, f.detail.chars().take(300).collect::<String>());
+                }
             }
             None => violations.push(f),
         }
